@@ -23,13 +23,15 @@ Inductive tfield :=
 | FAddr (v6 : bool)                        (* get_identifier + _as_ipv4_address / _as_ipv6_address *)
 | FHexTok                                  (* one token: hex, or "-" for the empty string (NSEC3PARAM salt) *)
 | FAlg                                     (* get_string + dns.dnssectypes.Algorithm.make; printed as a number *)
-| FTag.                                    (* CAA tag: get_string().encode(), alphanumeric *)
+| FTag                                     (* CAA tag: get_string().encode(), alphanumeric *)
+| FBitmap.                                 (* rest of line: type mnemonics, Bitmap.from_text *)
 
 Inductive tval :=
 | VInt (z : Z)
 | VBytes (b : list Z)
 | VName (n : name)
-| VStrs (l : list (list Z)).
+| VStrs (l : list (list Z))
+| VWindows (ws : list (Z * list Z)).
 
 Record style := mkStyle {
   s_origin : option name; s_relativize : bool;
@@ -235,6 +237,217 @@ Definition alg_from_text (t : list Z) : res Z :=
 Definition is_alnum (c : Z) : bool :=
   ((48 <=? c) && (c <=? 57)) || ((65 <=? c) && (c <=? 90)) || ((97 <=? c) && (c <=? 122)).
 
+(* ---------- dns/rdatatype.py: type mnemonics (dns.enum.IntEnum.to_text / from_text) ---------- *)
+(* dns.rdatatype.RdataType members in definition order (aliases included), names as in the enum *)
+Definition rdtype_names : list (list Z * Z) :=
+  [([84; 89; 80; 69; 48], 0);
+   ([78; 79; 78; 69], 0);
+   ([65], 1);
+   ([78; 83], 2);
+   ([77; 68], 3);
+   ([77; 70], 4);
+   ([67; 78; 65; 77; 69], 5);
+   ([83; 79; 65], 6);
+   ([77; 66], 7);
+   ([77; 71], 8);
+   ([77; 82], 9);
+   ([78; 85; 76; 76], 10);
+   ([87; 75; 83], 11);
+   ([80; 84; 82], 12);
+   ([72; 73; 78; 70; 79], 13);
+   ([77; 73; 78; 70; 79], 14);
+   ([77; 88], 15);
+   ([84; 88; 84], 16);
+   ([82; 80], 17);
+   ([65; 70; 83; 68; 66], 18);
+   ([88; 50; 53], 19);
+   ([73; 83; 68; 78], 20);
+   ([82; 84], 21);
+   ([78; 83; 65; 80], 22);
+   ([78; 83; 65; 80; 95; 80; 84; 82], 23);
+   ([83; 73; 71], 24);
+   ([75; 69; 89], 25);
+   ([80; 88], 26);
+   ([71; 80; 79; 83], 27);
+   ([65; 65; 65; 65], 28);
+   ([76; 79; 67], 29);
+   ([78; 88; 84], 30);
+   ([83; 82; 86], 33);
+   ([78; 65; 80; 84; 82], 35);
+   ([75; 88], 36);
+   ([67; 69; 82; 84], 37);
+   ([65; 54], 38);
+   ([68; 78; 65; 77; 69], 39);
+   ([79; 80; 84], 41);
+   ([65; 80; 76], 42);
+   ([68; 83], 43);
+   ([83; 83; 72; 70; 80], 44);
+   ([73; 80; 83; 69; 67; 75; 69; 89], 45);
+   ([82; 82; 83; 73; 71], 46);
+   ([78; 83; 69; 67], 47);
+   ([68; 78; 83; 75; 69; 89], 48);
+   ([68; 72; 67; 73; 68], 49);
+   ([78; 83; 69; 67; 51], 50);
+   ([78; 83; 69; 67; 51; 80; 65; 82; 65; 77], 51);
+   ([84; 76; 83; 65], 52);
+   ([83; 77; 73; 77; 69; 65], 53);
+   ([72; 73; 80], 55);
+   ([78; 73; 78; 70; 79], 56);
+   ([67; 68; 83], 59);
+   ([67; 68; 78; 83; 75; 69; 89], 60);
+   ([79; 80; 69; 78; 80; 71; 80; 75; 69; 89], 61);
+   ([67; 83; 89; 78; 67], 62);
+   ([90; 79; 78; 69; 77; 68], 63);
+   ([83; 86; 67; 66], 64);
+   ([72; 84; 84; 80; 83], 65);
+   ([68; 83; 89; 78; 67], 66);
+   ([72; 72; 73; 84], 67);
+   ([66; 82; 73; 68], 68);
+   ([83; 80; 70], 99);
+   ([85; 78; 83; 80; 69; 67], 103);
+   ([78; 73; 68], 104);
+   ([76; 51; 50], 105);
+   ([76; 54; 52], 106);
+   ([76; 80], 107);
+   ([69; 85; 73; 52; 56], 108);
+   ([69; 85; 73; 54; 52], 109);
+   ([78; 88; 78; 65; 77; 69], 128);
+   ([84; 75; 69; 89], 249);
+   ([84; 83; 73; 71], 250);
+   ([73; 88; 70; 82], 251);
+   ([65; 88; 70; 82], 252);
+   ([77; 65; 73; 76; 66], 253);
+   ([77; 65; 73; 76; 65], 254);
+   ([65; 78; 89], 255);
+   ([85; 82; 73], 256);
+   ([67; 65; 65], 257);
+   ([65; 86; 67], 258);
+   ([65; 77; 84; 82; 69; 76; 65; 89], 260);
+   ([82; 69; 83; 73; 78; 70; 79], 261);
+   ([87; 65; 76; 76; 69; 84], 262);
+   ([84; 65], 32768);
+   ([68; 76; 86], 32769)].
+
+Definition eUnknownRdatatype := 25.   (* dns.rdatatype.UnknownRdatatype (a DNSException, not a SyntaxError) *)
+
+Fixpoint assoc_value (v : Z) (t : list (list Z * Z)) : option (list Z) :=
+  match t with
+  | [] => None
+  | (n, x) :: r => if x =? v then Some n else assoc_value v r
+  end.
+
+Definition replace_char (a b : Z) (s : list Z) : list Z := map (fun c => if c =? a then b else c) s.
+
+(* RdataType.to_text(value): the member name ('_' printed as '-') or TYPEnnn *)
+Definition rdtype_to_text (v : Z) : res (list Z) :=
+  if (v <? 0) || (v >? 65535) then Internal iValueError
+  else match assoc_value v rdtype_names with
+       | Some n => Ok (replace_char 95 45 n)
+       | None => Ok ([84; 89; 80; 69] ++ dec v)
+       end.
+
+(* RdataType.from_text(text) for ASCII text *)
+Definition rdtype_from_text (t : list Z) : res Z :=
+  let u := map upper_c t in
+  match assoc_text u rdtype_names with
+  | Some v => Ok v
+  | None =>
+      match (if existsb (Z.eqb 45) u then assoc_text (replace_char 45 95 u) rdtype_names else None) with
+      | Some v => Ok v
+      | None =>
+          if starts_with [84; 89; 80; 69] u && negb (is_nil (skipn 4 u)) && forallb is_decimal (skipn 4 u) then
+            let v := dec_value (skipn 4 u) 0 in
+            if v >? 65535 then Internal iValueError else Ok v
+          else Lib eUnknownRdatatype
+      end
+  end.
+
+(* ---------- dns/rdtypes/util.py Bitmap (NSEC / NSEC3 / CSYNC type bitmaps) ---------- *)
+Definition bwindow := (Z * list Z)%type.
+
+(* Bitmap.to_text: the types whose bits are set, in the order they are printed;
+   byte & (0x80 >> j)  is bit 7-j of the octet *)
+Definition bit_set (byte j : Z) : bool := Z.testbit byte (7 - j).
+
+Definition byte_types (base byte : Z) : list Z :=
+  flat_map (fun j => if bit_set byte j then [base + j] else []) [0; 1; 2; 3; 4; 5; 6; 7].
+
+Fixpoint window_types (window i : Z) (bitmap : list Z) : list Z :=
+  match bitmap with
+  | [] => []
+  | b :: r => byte_types (window * 256 + i * 8) b ++ window_types window (i + 1) r
+  end.
+
+Definition bitmap_types (ws : list bwindow) : list Z :=
+  flat_map (fun w => window_types (fst w) 0 (snd w)) ws.
+
+(* sorted(rdtypes) *)
+Fixpoint insert_sorted (x : Z) (l : list Z) : list Z :=
+  match l with
+  | [] => [x]
+  | y :: r => if x <=? y then x :: l else y :: insert_sorted x r
+  end.
+Definition sort_z (l : list Z) : list Z := fold_right insert_sorted [] l.
+
+Fixpoint set_nth (i : nat) (f : Z -> Z) (l : list Z) : list Z :=
+  match l, i with
+  | [], _ => []
+  | x :: r, O => f x :: r
+  | x :: r, S k => x :: set_nth k f r
+  end.
+
+(* the loop of Bitmap.from_rdtypes; state: window, octets, prior_rdtype, bitmap (32 octets), windows *)
+Fixpoint frt_loop (ts : list Z) (window octets prior : Z) (bitmap : list Z) (acc : list bwindow)
+  : Z * Z * list Z * list bwindow :=
+  match ts with
+  | [] => (window, octets, bitmap, acc)
+  | t :: r =>
+      if t =? prior then frt_loop r window octets prior bitmap acc
+      else
+        let nw := t / 256 in
+        let acc1 := if negb (nw =? window) && negb (octets =? 0)
+                    then acc ++ [(window, firstn (Z.to_nat octets) bitmap)] else acc in
+        let bitmap1 := if negb (nw =? window) then repeat 0 32 else bitmap in
+        let offset := t mod 256 in
+        let byte := offset / 8 in
+        let bit := offset mod 8 in
+        frt_loop r nw (byte + 1) t
+                 (set_nth (Z.to_nat byte) (fun x => Z.lor x (Z.shiftr 128 bit)) bitmap1) acc1
+  end.
+
+Definition from_rdtypes (ts : list Z) : list bwindow :=
+  let '(window, octets, bitmap, acc) := frt_loop (sort_z ts) 0 0 0 (repeat 0 32) [] in
+  if negb (octets =? 0) then acc ++ [(window, firstn (Z.to_nat octets) bitmap)] else acc.
+
+(* Bitmap.to_text: for every window a blank followed by the blank-separated mnemonics *)
+Fixpoint join_sp (l : list (list Z)) : list Z :=
+  match l with
+  | [] => []
+  | [x] => x
+  | x :: r => x ++ 32 :: join_sp r
+  end.
+
+Fixpoint map_res {A B} (f : A -> res B) (l : list A) : res (list B) :=
+  match l with
+  | [] => Ok []
+  | x :: r => do y <- f x; do ys <- map_res f r; Ok (y :: ys)
+  end.
+
+Fixpoint bitmap_to_text (ws : list bwindow) : res (list Z) :=
+  match ws with
+  | [] => Ok []
+  | w :: r =>
+      do names <- map_res rdtype_to_text (window_types (fst w) 0 (snd w));
+      do t <- bitmap_to_text r;
+      Ok (32 :: join_sp names ++ t)
+  end.
+
+(* Bitmap.from_text *)
+Definition bitmap_token_type (t : token) : res Z :=
+  do u <- unescape t;
+  do v <- rdtype_from_text (tvalue u);
+  if v =? 0 then Lib eSyntax else Ok v.
+
 (* ---------- printing ---------- *)
 (* Name.to_styled_text(style) with idna_codec None, omit_final_dot False *)
 Definition name_to_styled_text (st : style) (n : name) : res (list Z) :=
@@ -254,6 +467,7 @@ Definition print_field (st : style) (f : tfield) (v : tval) : res (list Z) :=
   | FHexTok, VBytes b => Ok (if is_nil b then [45] else hexlify b)
   | FAlg, VInt z => Ok (dec z)
   | FTag, VBytes b => Ok (escapify b)
+  | FBitmap, VWindows ws => bitmap_to_text ws
   | _, _ => Internal eBadCase
   end.
 
@@ -262,7 +476,9 @@ Fixpoint print_fields (st : style) (fs : list tfield) (vs : list tval) : res (li
   | [], [] => Ok []
   | [f], [v] => print_field st f v
   | f :: fs', v :: vs' =>
-      do a <- print_field st f v; do b <- print_fields st fs' vs'; Ok (a ++ 32 :: b)
+      (* the bitmap text brings its own leading blank *)
+      do a <- print_field st f v; do b <- print_fields st fs' vs';
+      Ok (a ++ (match fs' with FBitmap :: _ => [] | _ => [32] end) ++ b)
   | _, _ => Internal eBadCase
   end.
 
@@ -307,6 +523,10 @@ Definition parse_field (c : pctx) (f : tfield) (st : tstate) : res (tval * tstat
       else do e <- utf8_encode (fst ts); do b <- unhexlify e; Ok (VBytes b, snd ts)
   | FAlg => do ts <- get_string st 0; Ok (VBytes (fst ts), snd ts)
   | FTag => do ts <- get_string st 0; do b <- utf8_encode (fst ts); Ok (VBytes b, snd ts)
+  | FBitmap =>
+      do ts <- get_remaining st 0;
+      do types <- map_res bitmap_token_type (fst ts);
+      Ok (VWindows (from_rdtypes types), snd ts)
   end.
 
 Fixpoint parse_fields (c : pctx) (fs : list tfield) (st : tstate) : res (list tval * tstate) :=
@@ -367,6 +587,8 @@ Definition schema_of (rdtype : Z) : option (list tfield) :=
   else if rdtype =? 51 then Some [u8; u8; u16; FHexTok]                             (* NSEC3PARAM *)
   else if (rdtype =? 48) || (rdtype =? 60) then Some [u16; u8; FAlg; FB64Rest true] (* DNSKEY CDNSKEY *)
   else if rdtype =? 257 then Some [u8; FTag; FQStr 0 0 false]                       (* CAA *)
+  else if rdtype =? 47 then Some [FName; FBitmap]                                   (* NSEC *)
+  else if rdtype =? 62 then Some [u32; u16; FBitmap]                                (* CSYNC *)
   else if (rdtype =? 2) || (rdtype =? 5) || (rdtype =? 12) || (rdtype =? 39) || (rdtype =? 23)
   then Some [FName]                                        (* NS CNAME PTR DNAME NSAP-PTR *)
   else if (rdtype =? 15) || (rdtype =? 18) || (rdtype =? 21) || (rdtype =? 36) || (rdtype =? 107)
@@ -395,6 +617,14 @@ Definition obs_of_val (v : tval) : obs :=
   | VBytes b => B b
   | VName n => obs_of_name n
   | VStrs l => L (map B l)
+  | VWindows ws => L (map (fun w => L [I (fst w); B (snd w)]) ws)
+  end.
+
+Fixpoint windows_of_obs (l : list obs) : option (list bwindow) :=
+  match l with
+  | [] => Some []
+  | L [I w; B b] :: r => match windows_of_obs r with Some t => Some ((w, b) :: t) | None => None end
+  | _ => None
   end.
 
 Fixpoint vals_of_obs (fs : list tfield) (os : list obs) : option (list tval) :=
@@ -414,6 +644,7 @@ Fixpoint vals_of_obs (fs : list tfield) (os : list obs) : option (list tval) :=
           | FHexTok, B b => Some (VBytes b :: r)
           | FTag, B b => Some (VBytes b :: r)
           | FAlg, I z => Some (VInt z :: r)
+          | FBitmap, L l => match windows_of_obs l with Some w => Some (VWindows w :: r) | None => None end
           | FName, L l => match name_of_obs l with Some n => Some (VName n :: r) | None => None end
           | FTxtRest, L l => match strings_of_obs l with Some s => Some (VStrs s :: r) | None => None end
           | _, _ => None
@@ -462,70 +693,6 @@ Definition run_text (c : obs) : obs :=
   | _ => TokM.run c
   end.
 
-(* ---------- dns/rdtypes/util.py Bitmap (NSEC / NSEC3 / CSYNC type bitmaps) ---------- *)
-Definition bwindow := (Z * list Z)%type.
-
-(* Bitmap.to_text: the types whose bits are set, in the order they are printed;
-   byte & (0x80 >> j)  is bit 7-j of the octet *)
-Definition bit_set (byte j : Z) : bool := Z.testbit byte (7 - j).
-
-Definition byte_types (base byte : Z) : list Z :=
-  flat_map (fun j => if bit_set byte j then [base + j] else []) [0; 1; 2; 3; 4; 5; 6; 7].
-
-Fixpoint window_types (window i : Z) (bitmap : list Z) : list Z :=
-  match bitmap with
-  | [] => []
-  | b :: r => byte_types (window * 256 + i * 8) b ++ window_types window (i + 1) r
-  end.
-
-Definition bitmap_types (ws : list bwindow) : list Z :=
-  flat_map (fun w => window_types (fst w) 0 (snd w)) ws.
-
-(* sorted(rdtypes) *)
-Fixpoint insert_sorted (x : Z) (l : list Z) : list Z :=
-  match l with
-  | [] => [x]
-  | y :: r => if x <=? y then x :: l else y :: insert_sorted x r
-  end.
-Definition sort_z (l : list Z) : list Z := fold_right insert_sorted [] l.
-
-Fixpoint set_nth (i : nat) (f : Z -> Z) (l : list Z) : list Z :=
-  match l, i with
-  | [], _ => []
-  | x :: r, O => f x :: r
-  | x :: r, S k => x :: set_nth k f r
-  end.
-
-(* the loop of Bitmap.from_rdtypes; state: window, octets, prior_rdtype, bitmap (32 octets), windows *)
-Fixpoint frt_loop (ts : list Z) (window octets prior : Z) (bitmap : list Z) (acc : list bwindow)
-  : Z * Z * list Z * list bwindow :=
-  match ts with
-  | [] => (window, octets, bitmap, acc)
-  | t :: r =>
-      if t =? prior then frt_loop r window octets prior bitmap acc
-      else
-        let nw := t / 256 in
-        let acc1 := if negb (nw =? window) && negb (octets =? 0)
-                    then acc ++ [(window, firstn (Z.to_nat octets) bitmap)] else acc in
-        let bitmap1 := if negb (nw =? window) then repeat 0 32 else bitmap in
-        let offset := t mod 256 in
-        let byte := offset / 8 in
-        let bit := offset mod 8 in
-        frt_loop r nw (byte + 1) t
-                 (set_nth (Z.to_nat byte) (fun x => Z.lor x (Z.shiftr 128 bit)) bitmap1) acc1
-  end.
-
-Definition from_rdtypes (ts : list Z) : list bwindow :=
-  let '(window, octets, bitmap, acc) := frt_loop (sort_z ts) 0 0 0 (repeat 0 32) [] in
-  if negb (octets =? 0) then acc ++ [(window, firstn (Z.to_nat octets) bitmap)] else acc.
-
-Fixpoint windows_of_obs (l : list obs) : option (list bwindow) :=
-  match l with
-  | [] => Some []
-  | L [I w; B b] :: r => match windows_of_obs r with Some t => Some ((w, b) :: t) | None => None end
-  | _ => None
-  end.
-
 Definition run_addr (c : obs) : obs :=
   match c with
   | L [I 50; B a] => TokM.obs_of_res B (ipv4_ntoa a)
@@ -539,6 +706,9 @@ Definition run_addr (c : obs) : obs :=
       | Some w => L (map I (bitmap_types w))
       | None => E eBadCase
       end
+  | L [I 56; I v] => TokM.obs_of_res obs_of_text (rdtype_to_text v)
+  | L [I 57; t] =>
+      match text_of_obs t with Some s => TokM.obs_of_res I (rdtype_from_text s) | None => E eBadCase end
   | L [I 55; L ts] =>
       match ints_of_obs ts with
       | Some t => L (map (fun w => L [I (fst w); B (snd w)]) (from_rdtypes t))
